@@ -190,6 +190,21 @@ Theorem assignment_notifies_by_comparison_mode :
 Proof. exact assign_log_by_mode. Qed.
 Print Assumptions assignment_notifies_by_comparison_mode.
 
+(* del obj.n / reset_traits: without listeners the attribute is unassigned again and nothing is computed; with
+   listeners the default it reverts to is computed once, stored — so later reads return the very object the handlers
+   received as `new` — and its method / factory is counted once for the new unassigned state. *)
+Theorem delete_reverts_to_a_stored_default :
+  forall (w : world) (ins : inst) (n : Z) (ov : value) (t : tdef),
+    alookup n (i_dict ins) = Some ov -> resolve w ins n = Some t ->
+    let ins' := fst (fst (delete_inst w ins n)) in
+    match hids ins t n with
+    | [] => alookup n (i_dict ins') = None /\ alookup n (i_calls ins') = None
+    | _ :: _ => alookup n (i_dict ins') = Some (fst (default_value t (w_next w)))
+                /\ alookup n (i_calls ins') = (if counted t then Some 1 else None)
+    end.
+Proof. exact delete_inst_effect. Qed.
+Print Assumptions delete_reverts_to_a_stored_default.
+
 (* Non-vacuity of the four theorems above: comparison modes none / identity / equality on three Int traits with a
    static handler each, an added trait with metadata, a hand-over of a list between two instances. *)
 Example definitions_nontrivial :
@@ -201,12 +216,13 @@ Example definitions_nontrivial :
   let ops := [NewInst 0; NewInst 0; Read 0 0; Read 0 1; Read 0 2; Assign 0 0 [5] 0; Assign 0 1 [5] 0; Assign 0 2 [5] 0;
               Assign 0 0 [6] 0; Assign 0 1 [6] 0; Assign 0 2 [6] 0;
               AddTrait 0 50 (mkT KConst [3] 0 0 0 false 2 0); SetMeta 0 50 7; Introspect 0 100007;
-              Read 0 3; Mutate 0 3 9; AssignFrom 1 3 0; Mutate 0 3 8] in
+              Read 0 3; Mutate 0 3 9; AssignFrom 1 3 0; Mutate 0 3 8; Delete 0 2; Delete 1 3] in
   let w := final w0 ops in
   wf w0 /\ valid_hist w0 ops
   /\ map i_log (w_insts w)
-     = [[(0, 0, [5], [5]); (0, 0, [5], [6]); (0, 1, [5], [6]); (0, 2, [5], [6])]; []]
-  /\ map (fun i => alookup 3 (i_dict i)) (w_insts w) = [Some (mkV 5 [(2, [1; 9; 8])]); Some (mkV 5 [(3, [1; 9])])]
+     = [[(0, 0, [5], [5]); (0, 0, [5], [6]); (0, 1, [5], [6]); (0, 2, [5], [6]); (0, 2, [6], [5])]; []]
+  /\ map (fun i => alookup 3 (i_dict i)) (w_insts w) = [Some (mkV 5 [(2, [1; 9; 8])]); None]
+  /\ map (fun i => alookup 2 (i_dict i)) (w_insts w) = [Some (mkV 0 [(0, [5])]); None]
   /\ map (fun i => option_map t_label (alookup 50 (i_itraits i))) (w_insts w) = [Some 7; None]
   /\ w_classes w = cls.
 Proof.
